@@ -84,8 +84,15 @@ def dist(mode, lat1, lon1, lat2, lon2):
 
 def run_impl(G, case, mode, extra_state=None, extra_integ=None):
     """Run Gridder.grid_trajectory. Returns ('ok', canonical dict) or ('raise', exception type name)."""
-    old = G.GEOD
-    G.GEOD = TaxiGeod() if mode == 'taxi' else real_geod()
+    # the length measure is injected where the module takes it from: the geodesic object `GEOD` when the module has one,
+    # and — for the exact stub measure — the function `great_circle_distance` itself (a module that computes distances
+    # without a geodesic object keeps its own measure in 'geod' mode and is compared with the real geodesic)
+    old = getattr(G, 'GEOD', None)
+    old_gcd = getattr(G, 'great_circle_distance', None)
+    if old is not None:
+        G.GEOD = TaxiGeod() if mode == 'taxi' else real_geod()
+    elif mode == 'taxi' and old_gcd is not None:
+        G.great_circle_distance = lambda lat1, lon1, lat2, lon2: TaxiGeod().inv(lon1, lat1, lon2, lat2)[2]
     try:
         g = G.Gridder(
             np.array(case['glat'], dtype=float),
@@ -112,7 +119,10 @@ def run_impl(G, case, mode, extra_state=None, extra_integ=None):
     except Exception as e:  # noqa: BLE001
         return 'raise', type(e).__name__
     finally:
-        G.GEOD = old
+        if old is not None:
+            G.GEOD = old
+        if old_gcd is not None:
+            G.great_circle_distance = old_gcd
     la, lo, al, ti, st, it = out
 
     def lst(a):
@@ -757,7 +767,17 @@ def boundary_cases():
         mk([(12, 180), (25, -175)], name='start exactly on the antimeridian'),
         mk([(12, 175), (25, 180), (31, -170)], name='point exactly on the antimeridian'),
         mk([(-33, -178), (-12, 171), (-12, 171)], name='westward crossing then repeated point'),
+        # a repeated point written once as +180 and once as -180: a zero-length segment that crosses the antimeridian
+        mk([(5, 179), (5, 180), (5, -180), (6, -179)], name='repeated point on the antimeridian (+180 / -180)'),
+        mk([(5, -179), (5, -180), (5, 180), (6, 179)], name='repeated point on the antimeridian (-180 / +180)'),
+        mk([(12, 180), (12, -180)], name='only a repeated point on the antimeridian'),
+        mk([(12, -180), (12, -180), (20, -170)], name='repeated point on the lowest longitude line of the grid'),
     ]
+    # very short legs cut by a grid line (ground movement, position jitter): 10 m, 1 m and 0.2 m zig-zags over the 10 deg E line
+    for metres in (10.0, 1.0, 0.2):
+        dd = metres / 111_000.0
+        pts = [(5.0 + 0.7 * k * dd, 10.0 + (dd if k % 2 else -dd) * 0.7) for k in range(8)]
+        cs.append(mk(pts, name=f'{metres} m legs across a grid line'))
     return cs
 
 
@@ -925,6 +945,33 @@ def widen(rng, case):
     return out
 
 
+FINDING_LOWEST_LINE = 'C05-zero-length-piece-on-lowest-grid-line'
+
+
+def lowest_line_finding(pid, case, clause, detail):
+    """The open finding `C05-zero-length-piece-on-lowest-grid-line`, and nothing else: a placement clause of C05 that fails on a
+    segment without length (a repeated point, or +pi / -pi of the same point) one of whose end points lies exactly on the lowest
+    latitude or longitude line of the grid — the implementation reports grid index -1 there."""
+    import re
+
+    if pid != 'C05' or clause not in ('untouched_cells_get_nothing', 'piece_in_one_cell', 'pieces_in_path_order', 'reported_cell_is_entered'):
+        return None
+    m = re.match(r'segment (\d+)', detail or '')
+    if not m:
+        return None
+    i = int(m.group(1))
+    la, lo = case['lats'], case['lons']
+    if i + 1 >= len(la):
+        return None
+    same_lat = la[i] == la[i + 1]
+    dlon = abs(lo[i + 1] - lo[i])
+    same_lon = dlon == 0.0 or abs(dlon - TWO_PI) < 1e-15
+    if not (same_lat and same_lon):
+        return None
+    on_low = la[i] == case['glat'][0] or lo[i] == case['glon'][0] or lo[i + 1] == case['glon'][0]
+    return FINDING_LOWEST_LINE if on_low else None
+
+
 def check_batch(ctx, G, pid, cases, mode, tag, sampled_every=0, state=None):
     """correspondence + clauses for a batch of cases under one measure"""
     if not cases:
@@ -955,7 +1002,8 @@ def check_batch(ctx, G, pid, cases, mode, tag, sampled_every=0, state=None):
                 f2, _ = eval_clauses(G, small, mode, want=(pid,))
                 d2 = [x[2] for x in f2 if x[1] == clause]
                 detail = d2[0] if d2 else detail
-            ctx.clause_fail(clause, {'mode': mode, 'stream': tag, 'case': public_case(small)}, finding=None, detail=detail)
+            ctx.clause_fail(clause, {'mode': mode, 'stream': tag, 'case': public_case(small)},
+                            finding=lowest_line_finding(pid, small, clause, detail), detail=detail)
         # ---- correspondence
         if mo is not None and 'raw' in info:
             # C04 is about the integrated arrays only; C05 about everything
